@@ -122,7 +122,11 @@ def run(ctx):
         expect(ctx, {"what": f"{cfgv['rule']}: all ballots ranked", "cfg": cfgv, "profile": spec}, fnv, None, "missing_ranking")
         # ---- 2. STV family: a tied position -> TypeError
         for rule in rules.STV_FAMILY:
-            tied = B([tuple(cs[:2])] + ([cs[2]] if n > 2 else []), 1)
+            # the tied pair stands first, in the middle or last on an otherwise complete ballot
+            order = rnd.sample(cs, n)
+            tp = rnd.randrange(n - 1)
+            tied = B(order[:tp] + [tuple(order[tp:tp + 2])] + order[tp + 2:], 1)
+            ctx.count("tied_pair_not_first" if tp > 0 else "tied_pair_first")
             s2 = with_bad_ballot(spec, tied, pos)
             cfg, fn = mk(rule, s2)
             expect(ctx, {"what": f"{rule}: tied position at ballot {pos}", "cfg": cfg, "profile": s2}, fn, TypeError, "tied_stv")
@@ -208,6 +212,13 @@ def run(ctx):
             for m, ok in ((0, False), (-1, False), (n + 1, False), (n + 5, False), (n, True), (1, True)):
                 cfg, fn = mk(rule, spec, m=m)
                 expect(ctx, {"what": f"{rule}: m={m} with {n} candidates", "cfg": cfg, "profile": spec}, fn,
+                       None if ok else ValueError, "seat_count")
+        # the bound is the number of LISTED candidates: a candidate nobody voted for still counts
+        spec_u = canon.spec_profile(list(cs) + ["unvoted"], list(spec["ballots"]))
+        for rule in ["STV", "Plurality", "SNTV", "Borda", "CondoBorda"]:
+            for m, ok in ((n + 1, True), (n + 2, False)):
+                cfg, fn = mk(rule, spec_u, m=m)
+                expect(ctx, {"what": f"{rule}: m={m} with {n + 1} listed candidates, one of them on no ballot", "cfg": cfg, "profile": spec_u}, fn,
                        None if ok else ValueError, "seat_count")
         nsp = len(sp["cands"])
         prof_s = canon.build_profile(sp)
